@@ -574,15 +574,13 @@ impl Snap {
     /// the snapshot delta smaller.
     pub fn recycle(mut self) -> Builder {
         let mut next_type_id = OFFSET_EXTENDED_TYPE_ID;
-        for &key in self.raw.offsets.keys() {
-            let raw_type_id = key_to_raw_type_id(key);
+        // Snapshots read from the network can contain arbitrary extended type
+        // IDs, only look at the ones a builder could have assigned.
+        let valid = key(TYPE_ID_EX, OFFSET_EXTENDED_TYPE_ID)..key(TYPE_ID_EX, 0x8000);
+        for &key in self.raw.offsets.range(valid).map(|(k, _)| k) {
             let id = key_to_id(key);
-            const _: () = assert!(TYPE_ID_EX == 0);
-            if raw_type_id != TYPE_ID_EX {
-                break;
-            }
             // Make sure we'll have space for at least 256 additional extended types.
-            if id < next_type_id + 256 {
+            if id < next_type_id + 256 && id + 256 < 0x8000 {
                 next_type_id = id + 1;
             }
         }
